@@ -230,6 +230,48 @@ Definition add_csr (l r : csr) (scale : C) : option csr :=
              (merge_order (s_nc l + 1) (length (fst ab) + length rb) (fst ab) rb)))
          (combine (s_rows l) (s_rows r)) |}.
 
+(* ------------------------------------------------------------- reshape *)
+(* reshape.pyx::reshape_csr(matrix, n_rows_out, n_cols_out): the operand's
+   rows are sorted (matrix.sort_indices()), the data array is copied as it
+   is, entry (row, col) gets linear position loc = row*n_cols_in + col, output
+   column loc mod n_cols_out, and the output row pointer counts the entries
+   with loc / n_cols_out = r'.  Because loc increases along the sorted
+   storage order, output row r' is the run of entries with that quotient. *)
+Fixpoint locs (nc : nat) (r : nat) (rows : list crow) : crow :=
+  match rows with
+  | [] => []
+  | row :: t => map (fun p => (r * nc + fst p, snd p)) (sort_cols row) ++ locs nc (S r) t
+  end.
+Definition reshape_csr (m : csr) (nr' nc' : nat) : option csr :=
+  if negb (nr' * nc' =? s_nr m * s_nc m) || (nr' =? 0) || (nc' =? 0) then None
+  else Some {| s_nr := nr'; s_nc := nc';
+       s_rows := map (fun r' =>
+           map (fun q => (fst q mod nc', snd q))
+               (filter (fun q => fst q / nc' =? r') (locs (s_nc m) 0 (s_rows m))))
+         (seq 0 nr') |}.
+
+(* reshape_dense: a C-ordered operand keeps its buffer under the new shape;
+   a Fortran-ordered one is re-laid out into a new Fortran-ordered buffer
+   (the stride walk of the code, in gather form) *)
+Definition reshape_dense (d : dense) (nr' nc' : nat) : option dense :=
+  if negb (nr' * nc' =? d_nr d * d_nc d) || (nr' =? 0) || (nc' =? 0) then None
+  else Some (
+    if d_fortran d
+    then {| d_nr := nr'; d_nc := nc'; d_fortran := true;
+            d_data := tabulate nr' nc' true (fun i' j' =>
+                        let loc := i' * nc' + j' in den_dense d (loc / d_nc d) (loc mod d_nc d)) |}
+    else {| d_nr := nr'; d_nc := nc'; d_fortran := false; d_data := d_data d |}).
+
+(* column_stack_csr = reshape_csr(transpose) to a single column *)
+Definition column_stack_csr (m : csr) : option csr :=
+  if s_nc m =? 1 then Some m
+  else reshape_csr (transpose_csr m) (s_nr m * s_nc m) 1.
+(* column_stack_dense: the Fortran-ordered flat buffer as one column *)
+Definition column_stack_dense (d : dense) : dense :=
+  {| d_nr := d_nr d * d_nc d; d_nc := 1; d_fortran := true;
+     d_data := if d_fortran d then d_data d
+               else tabulate (d_nr d) (d_nc d) true (den_dense d) |}.
+
 (* ------------------------------------------------------------------ dia *)
 Record dia := { a_nr : nat; a_nc : nat; a_diags : list (Z * list C) }.
 
@@ -476,6 +518,10 @@ Definition G_add_dense := add_dense G g0 gadd gmul.
 Definition G_trace_csr := trace_csr G g0 gadd.
 Definition G_trace_dense := trace_dense G g0 gadd.
 Definition G_add_csr := add_csr G g1 gadd gmul gis0 geqb (gtidy 1).
+Definition G_reshape_csr := reshape_csr G.
+Definition G_reshape_dense := reshape_dense G g0.
+Definition G_column_stack_csr := column_stack_csr G.
+Definition G_column_stack_dense := column_stack_dense G g0.
 Definition G_dense_from_dia := dense_from_dia G g0.
 Definition G_dia_from_dense_full := dia_from_dense_full G g0.
 Definition G_csr_from_dia := csr_from_dia G g0 gadd gis0.
